@@ -20,14 +20,14 @@ def DefOK (cx : Cx) (m j : Nat) (dIn dOut : List LItem) : Option Nat → Prop
 that was folded into its header jumps is only a label: it must not be fallen into). -/
 structure SwSem (cx : Cx) (fuel : Nat) (env : Src.Env) (endL : Nat) (L : List (Nat × Nat)) (Cs : List Nat) (sE : St) (FI : Prop)
     (SC : Src.Cases) (Hn Cn dIn dOut : List LItem) : Prop where
-  grow : ∀ k nt b, Grow cx.Z b (Src.trCases fuel [] (brkEnv env k) SC k nt b).1
+  grow : ∀ k nt b, Grow cx.Z b (Src.trCases fuel cx.sm (brkEnv env k) SC k nt b).1
   corr : ∀ k nt r pH pC, Placed cx.cp cx.rs r pH Hn → Placed cx.cp cx.rs r pC Cn → ∀ b,
-    AgreeOn cx.N cx.Z b (Src.trCases fuel [] (brkEnv env k) SC k nt b).1 → ∀ m j (sC : St), sC.loops = L → sC.cases = endL :: Cs →
+    AgreeOn cx.N cx.Z b (Src.trCases fuel cx.sm (brkEnv env k) SC k nt b).1 → ∀ m j (sC : St), sC.loops = L → sC.cases = endL :: Cs →
     ExitsOK cx m j sC (brkEnv env k) → NamedIn cx sE → R2 cx m j ⟨r, pC + Cn.length⟩ k →
-    (R2 cx m j ⟨r, pH + Hn.length⟩ nt → R2 cx m j ⟨r, pH⟩ (Src.trCases fuel [] (brkEnv env k) SC k nt b).2.2.1) ∧
-    (FI → R2 cx m j ⟨r, pC⟩ (Src.trCases fuel [] (brkEnv env k) SC k nt b).2.1) ∧
-    DefOK cx m j dIn dOut (Src.trCases fuel [] (brkEnv env k) SC k nt b).2.2.2 ∧
-    LabExport cx env m j b (Src.trCases fuel [] (brkEnv env k) SC k nt b).1
+    (R2 cx m j ⟨r, pH + Hn.length⟩ nt → R2 cx m j ⟨r, pH⟩ (Src.trCases fuel cx.sm (brkEnv env k) SC k nt b).2.2.1) ∧
+    (FI → R2 cx m j ⟨r, pC⟩ (Src.trCases fuel cx.sm (brkEnv env k) SC k nt b).2.1) ∧
+    DefOK cx m j dIn dOut (Src.trCases fuel cx.sm (brkEnv env k) SC k nt b).2.2.2 ∧
+    LabExport cx env m j b (Src.trCases fuel cx.sm (brkEnv env k) SC k nt b).1
 
 theorem sw_nil (cx : Cx) (fuel : Nat) (env : Src.Env) (endL : Nat) (L : List (Nat × Nat)) (Cs : List Nat) (sE : St) (FI : Prop) (d : List LItem) :
     SwSem cx fuel env endL L Cs sE FI .nil [] [] d d := by
@@ -40,31 +40,31 @@ theorem sw_nil (cx : Cx) (fuel : Nat) (env : Src.Env) (endL : Nat) (L : List (Na
 theorem sw_case (cx : Cx) (fuel : Nat) (env : Src.Env) (he : EnvOK cx env) (endL : Nat) (L : List (Nat × Nat)) (Cs : List Nat)
     (w : List (Option BP)) (hs dIn d1 : List LItem) (sL eB : Nat) (ops : List LItem) (sa sb : St) (body : Stmts) (n : Nat) (bp : BP)
     (htest : isTest bp.name = true)
-    (hP : ∀ env', EnvOK cx env' → PieceOK cx ops sa sb (fun k b => Src.trStmts fuel [] env' (toSrcStmts body) k b) env')
+    (hP : ∀ env', EnvOK cx env' → PieceOK cx ops sa sb (fun k b => Src.trStmts fuel cx.sm env' (toSrcStmts body) k b) env')
     (hsaL : sa.loops = L) (hsaC : sa.cases = endL :: Cs) (hW : WaitSem cx fuel sL w hs dIn d1) {sE : St} (hle : NamedLe sb sE)
     {SCr : Src.Cases} {Hr Cr dOut : List LItem} (hR : SwSem cx fuel env endL L Cs sE (falls ops = true) SCr Hr Cr d1 dOut)
-    (hnd : hasNone w = true → ∀ k nt b, (Src.trCases fuel [] (brkEnv env k) SCr k nt b).2.2.2 = none) (FI : Prop) :
+    (hnd : hasNone w = true → ∀ k nt b, (Src.trCases fuel cx.sm (brkEnv env k) SCr k nt b).2.2.2 = none) (FI : Prop) :
     SwSem cx fuel env endL L Cs sE FI (wSrc w (.cons false ⟨bp.name, convParams bp.params⟩ (toSrcStmts body) SCr))
       (hs ++ [LItem.ljump ⟨n, bp.name, bp.params⟩ (some sL)] ++ Hr)
       ([LItem.label sL false] ++ ops ++ [LItem.label eB false] ++ Cr) dIn dOut := by
   have hsub : ∀ k, EvOK cx (brkEnv env k).subst := fun k => he.ev
   refine ⟨fun k nt b => ?_, ?_⟩
   · obtain ⟨gW, _, _, _⟩ := hW.sem (brkEnv env k) (hsub k) k nt (.cons false ⟨bp.name, convParams bp.params⟩ (toSrcStmts body) SCr) b
-    rw [trCases_case fuel (brkEnv env k) _ _ SCr k nt b rfl rfl] at gW
+    rw [trCases_case fuel cx.sm (brkEnv env k) _ _ SCr k nt b rfl rfl] at gW
     exact (((hR.grow k nt b).trans ((hP _ (plainEnv_brkEnv he k)).grow _ _)).trans (Grow.push _ _)).trans gW.grow
   intro k nt r pH pC hpH hpC b hag m j sC hl hc hex hin hend
   have hPe := hP _ (plainEnv_brkEnv he k)
   obtain ⟨gW, ebW, edW, cW⟩ := hW.sem (brkEnv env k) (hsub k) k nt (.cons false ⟨bp.name, convParams bp.params⟩ (toSrcStmts body) SCr) b
   have gR := hR.grow k nt b
   have cR := fun r' pH' pC' (h1 : Placed cx.cp cx.rs r' pH' Hr) (h2 : Placed cx.cp cx.rs r' pC' Cr) => hR.corr k nt r' pH' pC' h1 h2 b
-  generalize hT0 : Src.trCases fuel [] (brkEnv env k) SCr k nt b = T0 at gR cR
+  generalize hT0 : Src.trCases fuel cx.sm (brkEnv env k) SCr k nt b = T0 at gR cR
   have gB := hPe.grow T0.2.1 T0.1
   try simp only at gB
-  generalize hBd : Src.trStmts fuel [] (brkEnv env k) (toSrcStmts body) T0.2.1 T0.1 = Bd at gB
-  have htr := trCases_case fuel (brkEnv env k) ⟨bp.name, convParams bp.params⟩ (toSrcStmts body) SCr k nt b hT0 hBd
+  generalize hBd : Src.trStmts fuel cx.sm (brkEnv env k) (toSrcStmts body) T0.2.1 T0.1 = Bd at gB
+  have htr := trCases_case fuel cx.sm (brkEnv env k) ⟨bp.name, convParams bp.params⟩ (toSrcStmts body) SCr k nt b hT0 hBd
   rw [htr] at gW ebW edW cW
   simp only at gW ebW edW cW
-  generalize hTW : Src.trCases fuel [] (brkEnv env k) (wSrc w (.cons false ⟨bp.name, convParams bp.params⟩ (toSrcStmts body) SCr)) k nt b = TW
+  generalize hTW : Src.trCases fuel cx.sm (brkEnv env k) (wSrc w (.cons false ⟨bp.name, convParams bp.params⟩ (toSrcStmts body) SCr)) k nt b = TW
     at hag gW ebW edW cW ⊢
   obtain ⟨a1, a2⟩ := tbl_push Bd.1 (.test (Src.substEv (brkEnv env k).subst ⟨bp.name, convParams bp.params⟩) Bd.2 T0.2.2.1)
   -- the node table
@@ -127,17 +127,17 @@ theorem sw_case (cx : Cx) (fuel : Nat) (env : Src.Env) (he : EnvOK cx env) (endL
 /-- the default with a block: the header jumps of the handlers waiting for it, the jump of the default ops, its block -/
 theorem sw_default (cx : Cx) (fuel : Nat) (env : Src.Env) (he : EnvOK cx env) (endL : Nat) (L : List (Nat × Nat)) (Cs : List Nat)
     (w : List (Option BP)) (hs dIn d1 : List LItem) (sL eB : Nat) (ops : List LItem) (sa sb : St) (body : Stmts) (n0 : Nat)
-    (hP : ∀ env', EnvOK cx env' → PieceOK cx ops sa sb (fun k b => Src.trStmts fuel [] env' (toSrcStmts body) k b) env')
+    (hP : ∀ env', EnvOK cx env' → PieceOK cx ops sa sb (fun k b => Src.trStmts fuel cx.sm env' (toSrcStmts body) k b) env')
     (hsaL : sa.loops = L) (hsaC : sa.cases = endL :: Cs)
     (hW : WaitSem cx fuel sL w hs [LItem.ljump ⟨n0, Gen.op_jump, []⟩ (some sL)] d1) {sE : St} (hle : NamedLe sb sE)
     {SCr : Src.Cases} {Hr Cr dOut : List LItem} (hR : SwSem cx fuel env endL L Cs sE (falls ops = true) SCr Hr Cr d1 dOut)
-    (hnd : ∀ k nt b, (Src.trCases fuel [] (brkEnv env k) SCr k nt b).2.2.2 = none) (FI : Prop) :
+    (hnd : ∀ k nt b, (Src.trCases fuel cx.sm (brkEnv env k) SCr k nt b).2.2.2 = none) (FI : Prop) :
     SwSem cx fuel env endL L Cs sE FI (wSrc w (.cons true ⟨"", []⟩ (toSrcStmts body) SCr))
       (hs ++ Hr) ([LItem.label sL false] ++ ops ++ [LItem.label eB false] ++ Cr) dIn dOut := by
   have hsub : ∀ k, EvOK cx (brkEnv env k).subst := fun k => he.ev
   refine ⟨fun k nt b => ?_, ?_⟩
   · obtain ⟨gW, _, _, _⟩ := hW.sem (brkEnv env k) (hsub k) k nt (.cons true ⟨"", []⟩ (toSrcStmts body) SCr) b
-    rw [trCases_default fuel (brkEnv env k) _ _ SCr k nt b rfl rfl] at gW
+    rw [trCases_default fuel cx.sm (brkEnv env k) _ _ SCr k nt b rfl rfl] at gW
     exact ((hR.grow k nt b).trans ((hP _ (plainEnv_brkEnv he k)).grow _ _)).trans gW.grow
   intro k nt r pH pC hpH hpC b hag m j sC hl hc hex hin hend
   have hPe := hP _ (plainEnv_brkEnv he k)
@@ -145,14 +145,14 @@ theorem sw_default (cx : Cx) (fuel : Nat) (env : Src.Env) (he : EnvOK cx env) (e
   have gR := hR.grow k nt b
   have cR := fun r' pH' pC' (h1 : Placed cx.cp cx.rs r' pH' Hr) (h2 : Placed cx.cp cx.rs r' pC' Cr) => hR.corr k nt r' pH' pC' h1 h2 b
   have hndk := hnd k nt b
-  generalize hT0 : Src.trCases fuel [] (brkEnv env k) SCr k nt b = T0 at gR cR hndk
+  generalize hT0 : Src.trCases fuel cx.sm (brkEnv env k) SCr k nt b = T0 at gR cR hndk
   have gB := hPe.grow T0.2.1 T0.1
   try simp only at gB
-  generalize hBd : Src.trStmts fuel [] (brkEnv env k) (toSrcStmts body) T0.2.1 T0.1 = Bd at gB
-  have htr := trCases_default fuel (brkEnv env k) ⟨"", []⟩ (toSrcStmts body) SCr k nt b hT0 hBd
+  generalize hBd : Src.trStmts fuel cx.sm (brkEnv env k) (toSrcStmts body) T0.2.1 T0.1 = Bd at gB
+  have htr := trCases_default fuel cx.sm (brkEnv env k) ⟨"", []⟩ (toSrcStmts body) SCr k nt b hT0 hBd
   rw [htr] at gW ebW edW cW
   simp only at gW ebW edW cW
-  generalize hTW : Src.trCases fuel [] (brkEnv env k) (wSrc w (.cons true ⟨"", []⟩ (toSrcStmts body) SCr)) k nt b = TW
+  generalize hTW : Src.trCases fuel cx.sm (brkEnv env k) (wSrc w (.cons true ⟨"", []⟩ (toSrcStmts body) SCr)) k nt b = TW
     at hag gW ebW edW cW ⊢
   have agR : AgreeOn cx.N cx.Z b T0.1 := hag.sub_grow (Grow.refl b) (gB.trans gW.grow)
   have agB : AgreeOn cx.N cx.Z T0.1 Bd.1 := hag.sub_grow gR gW.grow
@@ -201,16 +201,16 @@ label, nothing falls into it -/
 theorem sw_fold (cx : Cx) (fuel : Nat) (env : Src.Env) (he : EnvOK cx env) (endL : Nat) (L : List (Nat × Nat)) (Cs : List Nat)
     (w : List (Option BP)) (hs dIn d1 : List LItem) (l eB : Nat) (ops : List LItem) (sa sb : St) (body : Stmts) (n : Nat) (bp : BP)
     (htest : isTest bp.name = true) (hlone : loneJump ops = some (some l))
-    (hP : ∀ env', EnvOK cx env' → PieceOK cx ops sa sb (fun k b => Src.trStmts fuel [] env' (toSrcStmts body) k b) env')
+    (hP : ∀ env', EnvOK cx env' → PieceOK cx ops sa sb (fun k b => Src.trStmts fuel cx.sm env' (toSrcStmts body) k b) env')
     (hsaL : sa.loops = L) (hsaC : sa.cases = endL :: Cs) (hW : WaitSem cx fuel l w hs dIn d1) {sE : St} (hle : NamedLe sb sE)
     {SCr : Src.Cases} {Hr Cr dOut : List LItem} (hR : SwSem cx fuel env endL L Cs sE False SCr Hr Cr d1 dOut)
-    (hnd : hasNone w = true → ∀ k nt b, (Src.trCases fuel [] (brkEnv env k) SCr k nt b).2.2.2 = none) :
+    (hnd : hasNone w = true → ∀ k nt b, (Src.trCases fuel cx.sm (brkEnv env k) SCr k nt b).2.2.2 = none) :
     SwSem cx fuel env endL L Cs sE False (wSrc w (.cons false ⟨bp.name, convParams bp.params⟩ (toSrcStmts body) SCr))
       (hs ++ [LItem.ljump ⟨n, bp.name, bp.params⟩ (some l)] ++ Hr) ([LItem.label eB false] ++ Cr) dIn dOut := by
   have hsub : ∀ k, EvOK cx (brkEnv env k).subst := fun k => he.ev
   refine ⟨fun k nt b => ?_, ?_⟩
   · obtain ⟨gW, _, _, _⟩ := hW.sem (brkEnv env k) (hsub k) k nt (.cons false ⟨bp.name, convParams bp.params⟩ (toSrcStmts body) SCr) b
-    rw [trCases_case fuel (brkEnv env k) _ _ SCr k nt b rfl rfl] at gW
+    rw [trCases_case fuel cx.sm (brkEnv env k) _ _ SCr k nt b rfl rfl] at gW
     exact (((hR.grow k nt b).trans ((hP _ (plainEnv_brkEnv he k)).grow _ _)).trans (Grow.push _ _)).trans gW.grow
   intro k nt r pH pC hpH hpC b hag m j sC hl hc hex hin hend
   have hPe := hP _ (plainEnv_brkEnv he k)
@@ -219,12 +219,12 @@ theorem sw_fold (cx : Cx) (fuel : Nat) (env : Src.Env) (he : EnvOK cx env) (endL
   obtain ⟨gW, ebW, edW, cW⟩ := hW.sem (brkEnv env k) (hsub k) k nt (.cons false ⟨bp.name, convParams bp.params⟩ (toSrcStmts body) SCr) b
   have gR := hR.grow k nt b
   have cR := fun r' pH' pC' (h1 : Placed cx.cp cx.rs r' pH' Hr) (h2 : Placed cx.cp cx.rs r' pC' Cr) => hR.corr k nt r' pH' pC' h1 h2 b
-  generalize hT0 : Src.trCases fuel [] (brkEnv env k) SCr k nt b = T0 at gR cR
-  have hBd : Src.trStmts fuel [] (brkEnv env k) (toSrcStmts body) T0.2.1 T0.1 = (T0.1, nn) := htrf _ _
-  have htr := trCases_case fuel (brkEnv env k) ⟨bp.name, convParams bp.params⟩ (toSrcStmts body) SCr k nt b hT0 hBd
+  generalize hT0 : Src.trCases fuel cx.sm (brkEnv env k) SCr k nt b = T0 at gR cR
+  have hBd : Src.trStmts fuel cx.sm (brkEnv env k) (toSrcStmts body) T0.2.1 T0.1 = (T0.1, nn) := htrf _ _
+  have htr := trCases_case fuel cx.sm (brkEnv env k) ⟨bp.name, convParams bp.params⟩ (toSrcStmts body) SCr k nt b hT0 hBd
   rw [htr] at gW ebW edW cW
   simp only at gW ebW edW cW
-  generalize hTW : Src.trCases fuel [] (brkEnv env k) (wSrc w (.cons false ⟨bp.name, convParams bp.params⟩ (toSrcStmts body) SCr)) k nt b = TW
+  generalize hTW : Src.trCases fuel cx.sm (brkEnv env k) (wSrc w (.cons false ⟨bp.name, convParams bp.params⟩ (toSrcStmts body) SCr)) k nt b = TW
     at hag gW ebW edW cW ⊢
   obtain ⟨a1, a2⟩ := tbl_push T0.1 (.test (Src.substEv (brkEnv env k).subst ⟨bp.name, convParams bp.params⟩) nn T0.2.2.1)
   have agR : AgreeOn cx.N cx.Z b T0.1 := hag.sub_grow (Grow.refl b) ((Grow.push _ _).trans gW.grow)
